@@ -113,6 +113,9 @@ type c16Shape struct {
 	// backing array, as in WithInterceptors(common[:k]...): nothing the library
 	// does with one group may leak into the array behind it.
 	foreign bool
+	// ufunc: the interceptors with an even id are UnaryInterceptorFuncs (they
+	// take part in unary calls only; streams see the others, in order)
+	ufunc bool
 }
 
 func (s c16Shape) String() string {
@@ -131,6 +134,9 @@ func (s c16Shape) String() string {
 	if s.foreign {
 		m += "+foreign-after-first-group"
 	}
+	if s.ufunc {
+		m += "+even-ids-are-UnaryInterceptorFuncs"
+	}
 	return fmt.Sprintf("list=[%s] groups=%v nest=%v empties=%b merge=%v", strings.Join(p, ","), s.groups, s.nest, s.empties, m)
 }
 
@@ -140,7 +146,19 @@ func (s c16Shape) build(side string, log *c16Log) (flat []int, hopts []connect.H
 	for _, b := range s.pattern {
 		if b {
 			id++
-			list = append(list, &c16Icept{id: id, side: side, log: log})
+			if s.ufunc && id%2 == 0 {
+				uid := id
+				list = append(list, connect.UnaryInterceptorFunc(func(next connect.UnaryFunc) connect.UnaryFunc {
+					return func(ctx context.Context, req connect.AnyRequest) (connect.AnyResponse, error) {
+						log.add(fmt.Sprintf("%s.unary.req:%d", side, uid))
+						res, err := next(ctx, req)
+						log.add(fmt.Sprintf("%s.unary.res:%d", side, uid))
+						return res, err
+					}
+				}))
+			} else {
+				list = append(list, &c16Icept{id: id, side: side, log: log})
+			}
 			flat = append(flat, id)
 		} else {
 			list = append(list, nil)
@@ -357,6 +375,11 @@ func c16(run *ev.Run) int {
 						s5 := c16Shape{pattern: pattern, groups: comp, nest: make([]int, g), foreign: true}
 						shapes = append(shapes, s5)
 					}
+					if ni%5 == 3 || ni == 0 {
+						s6 := s
+						s6.ufunc = true
+						shapes = append(shapes, s6)
+					}
 					if ni%4 == 2 || (g >= 3 && ni > 0) {
 						s4 := s
 						s4.mergeU = true
@@ -375,6 +398,7 @@ func c16(run *ev.Run) int {
 		}
 		c16Case(run, s, key)
 	})
+	c16Layered(run)
 	return run.Finish("calls", "phases.compared")
 }
 
@@ -420,6 +444,15 @@ func c16Case(run *ev.Run, s c16Shape, key string) {
 			if side == "c" {
 				flat, got = flatC, gotC
 			}
+			if s.ufunc && kind != svc.Unary {
+				var odd []int
+				for _, id := range flat {
+					if id%2 == 1 {
+						odd = append(odd, id)
+					}
+				}
+				flat = odd
+			}
 			want := c16Expected(side, kind, flat)
 			phases := []string{side + ".unary.req", side + ".unary.res", side + ".stream.wrap", side + ".stream.send", side + ".stream.recv"}
 			if side == "h" {
@@ -438,5 +471,124 @@ func c16Case(run *ev.Run, s c16Shape, key string) {
 	}
 	if len(s.pattern) == 3 && len(s.groups) == 2 {
 		run.Sample(map[string]any{"shape": s.String()})
+	}
+}
+
+// c16Layered: option sets derived from each other the way configuration layers
+// are (org -> team -> {billing, search, ...}): every layer is built by wrapping
+// its parent and adding interceptors, and several leaves share one parent. All
+// leaves are created first and used afterwards; each must run exactly the
+// interceptors on its own path, in declaration order.
+func c16Layered(run *ev.Run) {
+	for _, wrapper := range []string{"side", "WithOptions"} {
+		for depth := 1; depth <= 4; depth++ {
+			for leaves := 2; leaves <= 3; leaves++ {
+				for perLayer := 1; perLayer <= 2; perLayer++ {
+					key := fmt.Sprintf("c16/layered/wrapper=%s/depth=%d/leaves=%d/per-layer=%d", wrapper, depth, leaves, perLayer)
+					if !run.Want(key) {
+						continue
+					}
+					for _, side := range []string{"h", "c"} {
+						log := &c16Log{}
+						id := 0
+						mk := func() connect.Option {
+							id++
+							return connect.WithInterceptors(&c16Icept{id: id, side: side, log: log})
+						}
+						wrapH := func(parent connect.HandlerOption, own []connect.Option) connect.HandlerOption {
+							args := []connect.HandlerOption{}
+							if parent != nil {
+								args = append(args, parent)
+							}
+							for _, o := range own {
+								args = append(args, o)
+							}
+							return connect.WithHandlerOptions(args...)
+						}
+						wrapC := func(parent connect.ClientOption, own []connect.Option) connect.ClientOption {
+							args := []connect.ClientOption{}
+							if parent != nil {
+								args = append(args, parent)
+							}
+							for _, o := range own {
+								args = append(args, o)
+							}
+							return connect.WithClientOptions(args...)
+						}
+						wrapU := func(parent connect.Option, own []connect.Option) connect.Option {
+							args := []connect.Option{}
+							if parent != nil {
+								args = append(args, parent)
+							}
+							return connect.WithOptions(append(args, own...)...)
+						}
+						var ph connect.HandlerOption
+						var pc connect.ClientOption
+						var pu connect.Option
+						var path []int
+						layer := func() []connect.Option {
+							var own []connect.Option
+							for k := 0; k < perLayer; k++ {
+								own = append(own, mk())
+								path = append(path, id)
+							}
+							return own
+						}
+						for d := 0; d < depth; d++ {
+							own := layer()
+							ph, pc, pu = wrapH(ph, own), wrapC(pc, own), wrapU(pu, own)
+						}
+						type leaf struct {
+							h    connect.HandlerOption
+							c    connect.ClientOption
+							flat []int
+						}
+						var ls []leaf
+						for l := 0; l < leaves; l++ {
+							own := []connect.Option{mk()}
+							flat := append(append([]int{}, path...), id)
+							if wrapper == "side" {
+								ls = append(ls, leaf{wrapH(ph, own), wrapC(pc, own), flat})
+							} else {
+								u := wrapU(pu, own)
+								ls = append(ls, leaf{u, u, flat})
+							}
+						}
+						for li, lf := range ls {
+							reg := svc.NewRegistry()
+							var hopts []connect.HandlerOption
+							var copts []connect.ClientOption
+							if side == "h" {
+								hopts = append(hopts, lf.h)
+							} else {
+								copts = append(copts, lf.c)
+							}
+							hs := svc.Handlers(reg, hopts...)
+							cs := svc.NewClientSet(&wire.Loopback{Handler: svc.Mux(hs)}, "http://verif.local", copts...)
+							for _, kind := range []svc.Kind{svc.Unary, svc.Bidi} {
+								call := reg.New("c16l", &svc.Program{Steps: []svc.Step{{Op: "recv"}, {Op: "send", Msg: &gen.Msg{Id: 2}}}})
+								cl := cs.Do(context.Background(), kind, call.ID, nil, []*gen.Msg{{Id: 1}})
+								reg.Drop(call)
+								run.Count("calls", 1)
+								run.Eval(fmt.Sprintf("layered|%s|depth=%d|leaves=%d|per=%d|%s|%s", wrapper, depth, leaves, perLayer, side, kind))
+								got := log.take()
+								want := c16Expected(side, kind, lf.flat)
+								phases := []string{side + ".unary.req", side + ".unary.res", side + ".stream.wrap", side + ".stream.send", side + ".stream.recv"}
+								if side == "h" {
+									phases = []string{side + ".unary.req", side + ".unary.res", side + ".stream.wrap", side + ".stream.recv", side + ".stream.send"}
+								}
+								gotSorted := sortPhases(got, phases)
+								run.Count("phases.compared", int64(len(phases)))
+								if cl.Err != nil || fmt.Sprint(gotSorted) != fmt.Sprint(want) || len(gotSorted) != len(got) {
+									run.Violation(fmt.Sprintf("%s/%s/leaf=%d/%s", key, side, li, kind), fmt.Sprintf("leaf %d of %d sharing one parent layer ran %v, its own path predicts %v", li+1, leaves, gotSorted, want),
+										map[string]any{"wrapper": wrapper, "depth": depth, "leaves": leaves, "interceptors_per_layer": perLayer, "side": side, "client_err": errStr(cl.Err)})
+									break
+								}
+							}
+						}
+					}
+				}
+			}
+		}
 	}
 }
